@@ -162,9 +162,11 @@ def _string_to_number(value: str) -> Union[int, float]:
         return float("nan")
     if s.endswith("Infinity"):
         return float("-inf") if s[0] == "-" else float("inf")
-    if s.lstrip("+-").isdigit():
+    if s.lstrip("+-").isdigit() and len(s) <= 400:
         n = int(s)
         return -0.0 if n == 0 and s[0] == "-" else n
+    # float() rounds a digit string of any length correctly; int() refuses
+    # very long ones (the host's limit on integer string conversion)
     return float(s)
 
 
